@@ -13,16 +13,40 @@ package logger
 //@   ensures strings.LastIndexByte(s, ':') >= 0 ==> strings.LastIndexByte(port, ':') < 0
 //@   ensures strings.LastIndexByte(s, ':') < 0 ==> host == s && port == ""
 //@
+//@ // decimal value of the first k characters of s (digits only)
+//@ spec fun decValL(s string, k int) int decreases k = k <= 0 ? 0 : decValL(s, k-1) * 10 + (int(s[k-1]) - 48)
+//@ // value, by place, of the digits written so far into the scratch array (positions p+1..127; at most 20 digits)
+//@ spec fun dgd(d [128]byte, q int, p int) int = q > p ? int(d[q]) - 48 : 0
+//@ spec fun dVal(d [128]byte, p int) int = dgd(d, 108, p) * 10000000000000000000 + dgd(d, 109, p) * 1000000000000000000 + dgd(d, 110, p) * 100000000000000000 + dgd(d, 111, p) * 10000000000000000 + dgd(d, 112, p) * 1000000000000000 + dgd(d, 113, p) * 100000000000000 + dgd(d, 114, p) * 10000000000000 + dgd(d, 115, p) * 1000000000000 + dgd(d, 116, p) * 100000000000 + dgd(d, 117, p) * 10000000000 + dgd(d, 118, p) * 1000000000 + dgd(d, 119, p) * 100000000 + dgd(d, 120, p) * 10000000 + dgd(d, 121, p) * 1000000 + dgd(d, 122, p) * 100000 + dgd(d, 123, p) * 10000 + dgd(d, 124, p) * 1000 + dgd(d, 125, p) * 100 + dgd(d, 126, p) * 10 + dgd(d, 127, p) * 1
+//@
+//@ // value, by place, of the last m (at most 20) characters of s
+//@ spec fun tailVal(s string, m int) int = (0 < m ? (int(s[len(s)-1-0]) - 48) * 1 : 0) + (1 < m ? (int(s[len(s)-1-1]) - 48) * 10 : 0) + (2 < m ? (int(s[len(s)-1-2]) - 48) * 100 : 0) + (3 < m ? (int(s[len(s)-1-3]) - 48) * 1000 : 0) + (4 < m ? (int(s[len(s)-1-4]) - 48) * 10000 : 0) + (5 < m ? (int(s[len(s)-1-5]) - 48) * 100000 : 0) + (6 < m ? (int(s[len(s)-1-6]) - 48) * 1000000 : 0) + (7 < m ? (int(s[len(s)-1-7]) - 48) * 10000000 : 0) + (8 < m ? (int(s[len(s)-1-8]) - 48) * 100000000 : 0) + (9 < m ? (int(s[len(s)-1-9]) - 48) * 1000000000 : 0) + (10 < m ? (int(s[len(s)-1-10]) - 48) * 10000000000 : 0) + (11 < m ? (int(s[len(s)-1-11]) - 48) * 100000000000 : 0) + (12 < m ? (int(s[len(s)-1-12]) - 48) * 1000000000000 : 0) + (13 < m ? (int(s[len(s)-1-13]) - 48) * 10000000000000 : 0) + (14 < m ? (int(s[len(s)-1-14]) - 48) * 100000000000000 : 0) + (15 < m ? (int(s[len(s)-1-15]) - 48) * 1000000000000000 : 0) + (16 < m ? (int(s[len(s)-1-16]) - 48) * 10000000000000000 : 0) + (17 < m ? (int(s[len(s)-1-17]) - 48) * 100000000000000000 : 0) + (18 < m ? (int(s[len(s)-1-18]) - 48) * 1000000000000000000 : 0) + (19 < m ? (int(s[len(s)-1-19]) - 48) * 10000000000000000000 : 0)
+//@
 //@ func atoi
 //@   props C20
 //@   requires b != nil && 0 <= pad && pad <= 100
 //@   assigns bufOf
 //@   ensures nopanic
 //@   ensures forall x *bytes.Buffer :: x != b ==> bufOf[x] == old(bufOf[x])
-//@   ensures len(bufOf[b]) >= len(old(bufOf[b])) + 1
-//@   loop 1 invariant 108 <= p && p <= 127 && (i < 0 ==> flag && p == 127) && (i >= 0 ==> i < p10(p-108)) && (p < 127 ==> i > 0)
+//@   ensures len(bufOf[b]) >= len(old(bufOf[b])) + 1 && bufOf[b][:len(old(bufOf[b]))] == old(bufOf[b])
+//@   // what is appended is the decimal rendering of i (what strconv.FormatInt gives), zero-padded on the left to at
+//@   // least pad digits, with a leading '-' for negative numbers - for every i except the single value -2^63, whose
+//@   // negation overflows (no log field can hold it: durations, sizes and unix times are far smaller)
+//@   ensures i > -9223372036854775808 ==> (i < 0) == (bufOf[b][len(old(bufOf[b]))] == '-')
+//@   ensures i > -9223372036854775808 ==> forall k int :: len(old(bufOf[b])) + (i < 0 ? 1 : 0) <= k && k < len(bufOf[b]) ==> '0' <= bufOf[b][k] && bufOf[b][k] <= '9'
+//@   ensures i > -9223372036854775808 ==> len(bufOf[b]) - len(old(bufOf[b])) - (i < 0 ? 1 : 0) >= pad
+//@   // the digits denote |i|: the last (up to 20) digit characters, read by place, give |i|; digits further left are padding zeros
+//@   ensures i > -9223372036854775808 ==> tailVal(bufOf[b], len(bufOf[b]) - len(old(bufOf[b])) - (i < 0 ? 1 : 0)) == abs(i)
+//@   ensures i > -9223372036854775808 ==> forall k int :: len(old(bufOf[b])) + (i < 0 ? 1 : 0) <= k && k < len(bufOf[b]) - 20 ==> bufOf[b][k] == '0'
+//@   loop 1 split p in 107..127
+//@   loop 1 invariant 107 <= p && p <= 127 && (i < 0 ==> flag && p == 127) && (i >= 0 ==> i < p10(p-108)) && (p < 127 ==> i > 0)
+//@   loop 1 invariant forall q int :: p < q && q <= 127 ==> 48 <= d[q] && d[q] <= 57
+//@   loop 1 invariant old(i) > -9223372036854775808 ==> abs(old(i)) == i * p10(127 - p) + dVal(d, p)
 //@   loop 1 decreases p
-//@   loop 2 invariant 27 <= p && p <= 127 && (p <= 126 || flag)
+//@   loop 2 invariant 6 <= p && p <= 127 && (p <= 126 || flag)
+//@   loop 2 invariant forall q int :: p < q && q <= 127 ==> 48 <= d[q] && d[q] <= 57
+//@   loop 2 invariant old(i) > -9223372036854775808 ==> abs(old(i)) == dVal(d, p)
+//@   loop 2 invariant forall q int :: p < q && q < 108 ==> d[q] == 48
 //@   loop 2 decreases p
 //@
 //@ func type:field
